@@ -109,6 +109,56 @@ def load_cap():
     assert res, 'is_loading_valid not found'
     return res
 anchor('ast:is_loading_valid', load_cap)
+def fsm_decisions():
+    # G5: for each FSM state, the SupvisorsStates literals its state class can RETURN from `next` (resolved through the MRO,
+    # `super()` and `self.` calls whose result is returned), and whether it can return the Master's state
+    import supvisors.statemachine as sm
+    from supvisors.statemachine import FiniteStateMachine
+    memo = {}
+    def find(cls, start, meth):
+        mro = cls.__mro__
+        for k in mro[mro.index(start):]:
+            if meth in k.__dict__: return k
+        return None
+    def lits(cls, start, meth, stack=()):
+        d = find(cls, start, meth)
+        if d is None or (d, meth) in stack: return set()
+        key = (cls, d, meth)
+        if key in memo: return memo[key]
+        fn = ast.parse(textwrap.dedent(inspect.getsource(d.__dict__[meth]))).body[0]
+        res = set()
+        assigns = {}
+        for n in ast.walk(fn):
+            if isinstance(n, (ast.Assign, ast.AnnAssign)):
+                targets = n.targets if isinstance(n, ast.Assign) else [n.target]
+                for t in targets:
+                    if isinstance(t, ast.Name) and n.value is not None: assigns.setdefault(t.id, []).append(n.value)
+        def from_expr(e):
+            out = set()
+            if isinstance(e, ast.Attribute) and isinstance(e.value, ast.Name) and e.value.id == 'SupvisorsStates': out.add(e.attr)
+            elif isinstance(e, ast.Attribute) and e.attr == 'master_state': out.add('@MASTER')
+            elif isinstance(e, ast.Name):
+                for v in assigns.get(e.id, []): out |= from_expr(v)
+            elif isinstance(e, ast.Call) and isinstance(e.func, ast.Attribute):
+                f = e.func
+                if isinstance(f.value, ast.Call) and isinstance(f.value.func, ast.Name) and f.value.func.id == 'super':
+                    mro = cls.__mro__
+                    nxt = mro[mro.index(d) + 1]
+                    out |= lits(cls, nxt, f.attr, stack + ((d, meth),))
+                elif isinstance(f.value, ast.Name) and f.value.id == 'self':
+                    out |= lits(cls, cls, f.attr, stack + ((d, meth),))
+            elif isinstance(e, ast.IfExp): out |= from_expr(e.body) | from_expr(e.orelse)
+            return out
+        for n in ast.walk(fn):
+            if isinstance(n, ast.Return) and n.value is not None: res |= from_expr(n.value)
+        memo[key] = res
+        return res
+    table = []
+    for state, cls in FiniteStateMachine._StateInstances.items():
+        r = lits(cls, cls, 'next')
+        table.append([state.value, sorted(ttypes.SupvisorsStates[x].value for x in r if not x.startswith('@')), '@MASTER' in r])
+    return table
+anchor('ast:fsm_decisions', fsm_decisions)
 print(json.dumps(out))
 '''
 
@@ -175,6 +225,9 @@ def generate(repo, outdir):
     L.append('def isCheckingOps : List String := [' + ', '.join(f'"{x}"' for x in val('ast:is_checking', [])) + ']')
     L.append('/-- methods of statemachine.py that assign `state_modes.state` (expected: only `FiniteStateMachine.set_state`) -/')
     L.append('def fsmStateWriters : List String := [' + ', '.join(f'"{x}"' for x in val('ast:fsm_state_writers', [])) + ']')
+    dec = val('ast:fsm_decisions', [])
+    L.append('/-- G5: per FSM state, the states its state class can RETURN from `next` as literals (resolved through the MRO), and whether it\n    can return the state of the Master (`_slave_next`) -/')
+    L.append('def fsmDecisions : List (Nat × List Nat × Bool) := [' + ', '.join(f'({a}, {lean_list(b)}, {str(c).lower()})' for a, b, c in dec) + ']')
     lc = val('ast:is_loading_valid', [])
     L.append('/-- comparisons inside `is_loading_valid`: (operators, constants) -/')
     L.append('def loadingValidCmps : List (List String × List Nat) := [' +
